@@ -298,7 +298,7 @@ class OctetStringPayloadDecoder(AbstractSimplePayloadDecoder):
                      tagSet=None, length=None, state=None,
                      decodeFun=None, substrateFun=None,
                      **options):
-        if substrateFun:
+        if substrateFun and substrateFun is not self.substrateCollector:
             asn1Object = self._createComponent(asn1Spec, tagSet, noValue, **options)
 
             for chunk in substrateFun(asn1Object, substrate, length, options):
@@ -311,7 +311,12 @@ class OctetStringPayloadDecoder(AbstractSimplePayloadDecoder):
                 if isinstance(chunk, SubstrateUnderrunError):
                     yield chunk
 
-            yield self._createComponent(asn1Spec, tagSet, chunk, **options)
+            if substrateFun:
+                # a fragment of a constructed encoding being assembled
+                yield chunk
+
+            else:
+                yield self._createComponent(asn1Spec, tagSet, chunk, **options)
 
             return
 
